@@ -371,8 +371,8 @@ Definition eng_ctor (r : eng_raw) : engine + N :=
 Definition eng_of (r : eng_raw) : engine := match eng_ctor r with inl e => e | inr _ => Eng [] [] false None end.
 Definition tctor (r : eng_raw) : tok :=
   match eng_ctor r with
-  | inl e => L [tlist tN (e_na e); tlist tN (e_ea e); tbool (e_wl e); topt tN (e_mm e)]
-  | inr k => L [tN 99; tN k]
+  | inl e => L [tlist tN (e_na e); tlist tN (e_ea e); tbool (e_wl e); topt tN (e_mm e); tlist (tlist tN) available_backends]
+  | inr k => L [tN 99; tN k; tlist (tlist tN) available_backends]
   end.
 
 (** ---------- histories ---------- *)
@@ -385,7 +385,9 @@ Inductive query :=
 | QGiso0 (i j : nat)
 | QFgi (i j : nat) (use_defaults fast : bool) (dstar dzero done : N)
 | QEntry (fn : sub_fn) (child parent : nat) (o : sub_opts)
-| QCtor (r : eng_raw).
+| QCtor (r : eng_raw)
+| QObj (maps : bool) (e : nat) (i j : option nat)           (* isomorphic / get_mappings called with a non-Graph argument (None) *)
+| QFgiT (t1 t2 : N) (i j : nat) (use_defaults fast : bool) (dstar dzero done : N).   (* graph classes: 0 Graph, 1 DiGraph, 2 MultiGraph, 3 MultiDiGraph *)
 
 Definition gnth (gs : list graph) (i : nat) : graph := nth i gs (LG [] []).
 Definition enth (es : list engine) (i : nat) : engine := nth i es (Eng [] [] false None).
@@ -418,6 +420,17 @@ Definition step (gs : list graph) (es : list engine) (q : query) (c : cache) : t
        end, c)
   | QEntry fn ch pa o => (L [tres (sub_entry fn o (gnth gs ch) (gnth gs pa)); tN (entry_trace fn o (gnth gs ch) (gnth gs pa))], c)
   | QCtor r => (tctor r, c)
+  | QObj maps e i j =>
+      (* `if not isinstance(g1, nx.Graph) or not isinstance(g2, nx.Graph): raise TypeError` comes before everything else *)
+      match i, j with
+      | Some i', Some j' =>
+          if maps then let '(l, c') := get_mappings (enth es e) i' (gnth gs i') j' (gnth gs j') c in (tnat (length l), c')
+          else let '(b, c') := isomorphic (enth es e) i' (gnth gs i') j' (gnth gs j') c in (tbool b, c')
+      | _, _ => (L [tN 99; tN 1], c)
+      end
+  | QFgiT t1 t2 i j ud fa a b d =>
+      (* `if type(G1) is not type(G2): return None` comes first; only two plain Graphs are modelled beyond that *)
+      (if N.eqb t1 t2 then (if fgi ud fa a b d (gnth gs i) (gnth gs j) then tbool true else tbool false) else tbool false, c)
   end.
 
 Fixpoint run_from (gs : list graph) (es : list engine) (qs : list query) (c : cache) : list tok :=
